@@ -115,6 +115,11 @@ func randCred(r *Rng, serialized bool) *ACred {
 		if r.Chance(20) {
 			e = e.Add(time.Duration(r.Intn(999999999)))
 		}
+		if r.Chance(6) {
+			// the ends of what RFC 3339 can write
+			e = []time.Time{time.Date(1, 1, 2, 0, 0, 0, 0, time.UTC), time.Date(9999, 12, 30, 23, 59, 59, 0, time.UTC), time.Unix(0, 0).UTC(), time.Unix(-1, 0).UTC(),
+				time.Unix(1<<32, 0).UTC(), time.Unix(1<<31-1, 0).UTC()}[r.Intn(6)]
+		}
 		c.Expiration = &e
 	}
 	c.SubjectTypeAs = "string"
